@@ -4,6 +4,7 @@ From ZV.Common Require Import Base Run.
 From Coq Require Import Sorting.Permutation Sorting.Sorted.
 From ZV.C12 Require Import Spec Model ProofsOrder ProofsSearch ProofsBuild ProofsKasai ProofsAll.
 From ZV.C12 Require Import ModelDict ProofsDictRange ProofsDict ModelEsa ProofsEsa ModelKeyed ProofsKeyed ModelCases.
+From ZV.C12 Require Import ModelSais ProofsSaisClassify ProofsSaisNames ProofsSais ProofsSaisSmall.
 Open Scope nat_scope.
 
 (* the order used by the spec is the textbook one: proper prefix, or smaller at the first difference *)
@@ -380,3 +381,113 @@ Check keyed_compare_refuted :
   exists K t, ~ is_sa t (keyed_sort K t) /\
               exists i j, keyed_cmp K (suffix t i) (suffix t j) <> lex_cmp (suffix t i) (suffix t j).
 Print Assumptions keyed_compare_refuted.
+
+(* ================= SA-IS (sais_construct_with_depth and its helpers), executable model in ModelSais.v ================= *)
+
+(* classify_suffixes / find_lms_suffixes: S-type = smaller than the next suffix (the last suffix is L: it is
+   followed by the empty suffix, the virtual sentinel), LMS = S-type with an L-type predecessor; the LMS
+   list is exactly those positions, in text order *)
+Theorem sais_classify_correct :
+  forall t,
+    let types := classify t in
+    let lms := lms_positions (lms_flags types) in
+    length types = length t /\
+    (forall i, i < length t -> (nth i types false = true <-> is_S t i)) /\
+    (forall p, nth p (lms_flags types) false = true <-> is_lms_pos t p) /\
+    (forall p, In p lms <-> is_lms_pos t p) /\
+    StronglySorted lt lms.
+Proof. exact sais_classify_correct_proof. Qed.
+Check sais_classify_correct :
+  forall t,
+    let types := classify t in
+    let lms := lms_positions (lms_flags types) in
+    length types = length t /\
+    (forall i, i < length t -> (nth i types false = true <-> is_S t i)) /\
+    (forall p, nth p (lms_flags types) false = true <-> is_lms_pos t p) /\
+    (forall p, In p lms <-> is_lms_pos t p) /\
+    StronglySorted lt lms.
+Print Assumptions sais_classify_correct.
+
+(* name_lms_substrings: along an LMS list sorted by a preorder whose equivalence is the code's
+   are_lms_substrings_equal, the names written into the table never decrease, are equal exactly for equal
+   LMS substrings, and are all below num_names *)
+Theorem sais_names_order_lms_substrings :
+  forall (le : nat -> nat -> Prop) text flags lms lms_sa names num,
+    (forall x y z, le x y -> le y z -> le x z) ->
+    (forall x y, In x lms_sa -> In y lms_sa -> (lms_equal text flags x y = true <-> le x y /\ le y x)) ->
+    StronglySorted le lms_sa -> NoDup lms -> Permutation lms_sa lms ->
+    name_lms text flags lms lms_sa = Some (names, num) ->
+    ForallOrdPairs (fun p p' => name_of lms names p <= name_of lms names p' /\
+                                (name_of lms names p = name_of lms names p' <-> lms_equal text flags p p' = true))
+                   lms_sa /\
+    (forall p, In p lms -> name_of lms names p < num).
+Proof. exact sais_names_order_lms_substrings_proof. Qed.
+Check sais_names_order_lms_substrings :
+  forall (le : nat -> nat -> Prop) text flags lms lms_sa names num,
+    (forall x y z, le x y -> le y z -> le x z) ->
+    (forall x y, In x lms_sa -> In y lms_sa -> (lms_equal text flags x y = true <-> le x y /\ le y x)) ->
+    StronglySorted le lms_sa -> NoDup lms -> Permutation lms_sa lms ->
+    name_lms text flags lms lms_sa = Some (names, num) ->
+    ForallOrdPairs (fun p p' => name_of lms names p <= name_of lms names p' /\
+                                (name_of lms names p = name_of lms names p' <-> lms_equal text flags p p' = true))
+                   lms_sa /\
+    (forall p, In p lms -> name_of lms names p < num).
+Print Assumptions sais_names_order_lms_substrings.
+
+(* the recursion condition `num_names < lms_suffixes.len()` holds exactly when two LMS substrings received
+   the same name (so the shortcut "names unique: the first-pass order is final" is taken only then) *)
+Theorem sais_recursion_needed_iff_duplicate_names :
+  forall text flags lms lms_sa names num,
+    NoDup lms -> Permutation lms_sa lms -> name_lms text flags lms lms_sa = Some (names, num) ->
+    num <= length lms /\ (num < length lms <-> ~ NoDup names).
+Proof. exact sais_recursion_needed_iff_duplicate_names_proof. Qed.
+Check sais_recursion_needed_iff_duplicate_names :
+  forall text flags lms lms_sa names num,
+    NoDup lms -> Permutation lms_sa lms -> name_lms text flags lms lms_sa = Some (names, num) ->
+    num <= length lms /\ (num < length lms <-> ~ NoDup names).
+Print Assumptions sais_recursion_needed_iff_duplicate_names.
+
+(* SA-IS returns the suffix array of every byte string up to the size guard, for both alphabet settings and
+   through every recursion level and the depth fallback - GIVEN two facts about one round of induced
+   sorting (final_ok, first_ok: hypotheses, not proved; see ProofsSais.v) *)
+Theorem sais_is_sa_partial :
+  final_ok -> first_ok ->
+  forall opt t, (forall c, In c t -> (c < 256)%N) -> (N.of_nat (length t) <= MAX_TEXT_SIZE)%N ->
+    exists sa, sais opt t = Some sa /\ is_sa t sa.
+Proof. exact sais_is_sa_partial_proof. Qed.
+Check sais_is_sa_partial :
+  final_ok -> first_ok ->
+  forall opt t, (forall c, In c t -> (c < 256)%N) -> (N.of_nat (length t) <= MAX_TEXT_SIZE)%N ->
+    exists sa, sais opt t = Some sa /\ is_sa t sa.
+Print Assumptions sais_is_sa_partial.
+
+(* the same for every recursion level (any alphabet bound, any remaining depth) *)
+Theorem sais_go_is_sa_partial :
+  final_ok -> first_ok ->
+  forall fuel t alpha,
+    (forall c, In c t -> N.to_nat c < alpha) -> (N.of_nat (length t) <= MAX_TEXT_SIZE)%N ->
+    exists sa, sais_go fuel t alpha = Some sa /\ is_sa t sa.
+Proof. exact sais_go_is_sa. Qed.
+Check sais_go_is_sa_partial :
+  final_ok -> first_ok ->
+  forall fuel t alpha,
+    (forall c, In c t -> N.to_nat c < alpha) -> (N.of_nat (length t) <= MAX_TEXT_SIZE)%N ->
+    exists sa, sais_go fuel t alpha = Some sa /\ is_sa t sa.
+Print Assumptions sais_go_is_sa_partial.
+
+Theorem sais_too_long_refused :
+  forall opt t, (MAX_TEXT_SIZE < N.of_nat (length t))%N -> sais opt t = None.
+Proof. exact sais_too_long_proof. Qed.
+Check sais_too_long_refused :
+  forall opt t, (MAX_TEXT_SIZE < N.of_nat (length t))%N -> sais opt t = None.
+Print Assumptions sais_too_long_refused.
+
+(* the two hypotheses, evaluated on a complete small domain (the bound is part of the statement) *)
+Theorem induced_sort_lemmas_small :
+  forall t, In t (words_upto [0; 1]%N 12) \/ In t (words_upto [0; 1; 2]%N 8) ->
+    final_okb 3 t = true /\ first_okb 3 t = true.
+Proof. exact induced_sort_lemmas_small_proof. Qed.
+Check induced_sort_lemmas_small :
+  forall t, In t (words_upto [0; 1]%N 12) \/ In t (words_upto [0; 1; 2]%N 8) ->
+    final_okb 3 t = true /\ first_okb 3 t = true.
+Print Assumptions induced_sort_lemmas_small.
